@@ -26,11 +26,38 @@ use crate::worlds::bdd::{
     K_AND, K_ANDLST, K_AUDIT, K_COMPOSE, K_COND, K_CONDMODEL, K_CONST, K_EQ, K_EXISTS, K_IFF, K_ITE, K_NEG, K_NEWLABEL, K_NEWVAR, K_OR, K_ORLST, K_REISSUE,
     K_VAR, K_XOR,
 };
-const NKINDS: usize = 19;
+/// compile_cnf of a seeded clause list over the variables in use (narrow clauses, clauses of tens of literals, and
+/// clauses of 129-260 literals, which necessarily repeat variables and usually contain complementary literals)
+pub const K_COMPILECNF: u8 = 19;
+const NKINDS: usize = 20;
 const KNAMES: [&str; NKINDS] = [
     "var", "new_var", "const", "negate", "and", "or", "xor", "iff", "ite", "condition", "condition_model", "exists", "compose", "and_lst", "or_lst", "eq",
-    "reissue", "audit", "new_label+var",
+    "reissue", "audit", "new_label+var", "compile_cnf",
 ];
+
+/// the clause list of a compile_cnf operation: a pure function of its seed and of how many variables were in use
+fn cnf_of(seed: u64, used: &[usize], n_used: usize) -> Vec<Vec<(usize, bool)>> {
+    let mut r = Rng::new(mix(seed, 0xc4f));
+    let universe = &used[..n_used.min(used.len()).max(1)];
+    let mut out = Vec::new();
+    for _ in 0..(1 + r.below(3)) {
+        let width = match r.below(10) {
+            0..=5 => 1 + r.below(5),
+            6 | 7 => 20 + r.below(50),
+            _ => 129 + r.below(132),
+        } as usize;
+        // a wide clause over few variables is (almost) always trivially true; keeping it to a window of the variables
+        // and one polarity per variable most of the time leaves non-trivial wide clauses too
+        let forced_pol = r.below(3) != 0;
+        let pol_seed = r.next();
+        out.push((0..width).map(|_| {
+            let j = r.below(universe.len() as u64) as usize;
+            let pol = if forced_pol && r.below(40) != 0 { (pol_seed >> (j % 64)) & 1 == 1 } else { r.bool() };
+            (universe[j], pol)
+        }).collect());
+    }
+    out
+}
 const NB: usize = 4;
 type Ptr = BddPtr<'static>;
 type M = [TT; NB];
@@ -207,6 +234,13 @@ fn apply<T: IteTable<'static, Ptr> + Default + 'static>(b: &'static RobddBuilder
         K_COMPOSE => b.compose(g(0), l, g(1)),
         K_ANDLST => b.and_lst(&list_items(&r.x, r.list_len).iter().map(|i| pool[*i]).collect::<Vec<_>>()),
         K_ORLST => b.or_lst(&list_items(&r.x, r.list_len).iter().map(|i| pool[*i]).collect::<Vec<_>>()),
+        K_COMPILECNF => {
+            let clauses: Vec<Vec<rsdd::repr::Literal>> = cnf_of(r.bits.0 as u64 | (r.bits.1 as u64) << 32, &cube.used, r.label)
+                .iter()
+                .map(|c| c.iter().map(|(v, p)| rsdd::repr::Literal::new(VarLabel::new(*v as u64), *p)).collect())
+                .collect();
+            b.compile_cnf(&rsdd::repr::Cnf::new(&clauses))
+        }
         _ => unreachable!(),
     }
 }
@@ -242,6 +276,10 @@ fn model_of(r: &Resolved, ms: &[M], cube: &Cube) -> M {
             let j = cube.pos[&r.label];
             m_zip(g(0), g(1), |f, gg| tt::compose_doc(f, j, gg))
         }
+        K_COMPILECNF => cnf_of(r.bits.0 as u64 | (r.bits.1 as u64) << 32, &cube.used, r.label).iter().fold([tt::TRUE; NB], |acc, c| {
+            let cl = c.iter().fold([tt::FALSE; NB], |a, (v, p)| m_zip(a, cube.lit(*v, *p), |x, y| x | y));
+            m_zip(acc, cl, |x, y| x & y)
+        }),
         K_ANDLST => list_items(&r.x, r.list_len).iter().fold([tt::TRUE; NB], |a, i| m_zip(a, ms[*i], |x, y| x & y)),
         K_ORLST => list_items(&r.x, r.list_len).iter().fold([tt::FALSE; NB], |a, i| m_zip(a, ms[*i], |x, y| x | y)),
         _ => unreachable!(),
@@ -363,7 +401,7 @@ fn run<T: IteTable<'static, Ptr> + Default + 'static>(plan: &Plan, ctx: &mut Ctx
         let caller = (op.c & 3) as usize;
         let n = pool.len();
         let mut kind = op.k;
-        if n == 0 && !matches!(kind, K_VAR | K_NEWVAR | K_NEWLABEL | K_CONST) {
+        if n == 0 && !matches!(kind, K_VAR | K_NEWVAR | K_NEWLABEL | K_CONST | K_COMPILECNF) {
             kind = K_VAR;
         }
         if matches!(kind, K_NEWVAR | K_NEWLABEL) && nvars_now >= max_vars {
@@ -373,6 +411,10 @@ fn run<T: IteTable<'static, Ptr> + Default + 'static>(plan: &Plan, ctx: &mut Ctx
         let free_label = |a: i64| cube.free[a.unsigned_abs() as usize % cube.free.len()];
         match kind {
             K_VAR => r.label = cube.used[(op.a[0].unsigned_abs() as usize) % cube.used.len()],
+            K_COMPILECNF => {
+                r.bits = (op.a[0] as u32, op.a[1] as u32);
+                r.label = cube.used.len();
+            }
             K_NEWVAR | K_NEWLABEL => r.label = nvars_now,
             K_CONST => {}
             K_NEG => r.x[0] = resolve(op.a[0], caller, &own, n),
@@ -603,7 +645,7 @@ impl World for BddMidWorld {
         }
         let ncallers = 1 + c.below(4);
         let mut w = [0u32; NKINDS];
-        let base = [10, 2, 1, 5, 10, 8, 7, 6, 9, 5, 3, 4, 3, 2, 2, 3, 4, 3, 1];
+        let base = [10, 2, 1, 5, 10, 8, 7, 6, 9, 5, 3, 4, 3, 2, 2, 3, 4, 3, 1, 1];
         for k in 0..NKINDS {
             w[k] = if c.below(6) == 0 { 0 } else { base[k] * (1 + c.below(3) as u32) };
         }
@@ -620,6 +662,7 @@ impl World for BddMidWorld {
             let a = match k {
                 K_VAR => [o.below(128) as i64, 0, 0, o.below(2) as i64],
                 K_NEWVAR | K_NEWLABEL | K_CONST => [0, 0, 0, o.below(2) as i64],
+                K_COMPILECNF => [(o.next() >> 33) as i64, (o.next() >> 33) as i64, 0, 0],
                 K_COND | K_EXISTS => [gen_operand(&mut o), o.below(8) as i64, 0, o.below(2) as i64],
                 K_COMPOSE => [gen_operand(&mut o), gen_operand(&mut o), o.below(8) as i64, 0],
                 K_CONDMODEL => [gen_operand(&mut o), o.below(128) as i64, o.below(128) as i64, o.below(2) as i64],
